@@ -31,12 +31,24 @@ def _fine_grained(code):
         fn.endswith("aws_durable_execution_sdk_python/concurrency/executor.py") and code.co_name in ("_execute_item_in_child_context",))
 
 
-def run_invocation(sc, backend, seed, fault=None, schedule=None):
+def run_invocation(sc, backend, seed, fault=None, schedule=None, clock0=None):
     sim = Sim(schedule=schedule, seed=seed, policy="pct" if seed % 3 == 0 else "random", max_points=150000, wall_limit=40, quiesce_limit=120.0)
+    if clock0 is not None:
+        sim.clock = sim.last_progress_clock = clock0     # time goes on between invocations
     if sc.get("fine"):
         sim.line_points = _fine_grained
+    if seed % 4 == 1:
+        sim.time_jitter = 0.02       # a quarter of the runs: timers may fire while other threads are in the middle of something
     res = {"events": [], "bodies": 0, "max_bodies": 0}
     backend.plan = {}
+    if sc.get("resp_page_size"):
+        backend.plan["resp_page_size"] = sc["resp_page_size"]
+    if sc.get("page_fault") and backend.invocation_no == 0:
+        # what the real LambdaClient.get_execution_state raises for any failure of the call
+        from aws_durable_execution_sdk_python.exceptions import GetExecutionStateError
+        backend.plan["fail_page_fetch"] = dict(sc["page_fault"], exc=lambda: GetExecutionStateError("injected page-fetch failure"))
+    backend.page_fetches = 0
+    backend.page_fetch_failed = False
     backend.clock = lambda: sim.clock
     with patched(sim):
         from aws_durable_execution_sdk_python.config import CompletionConfig, Duration, MapConfig, ParallelConfig, StepConfig
@@ -77,7 +89,11 @@ def run_invocation(sc, backend, seed, fault=None, schedule=None):
             if operation_update is not None:
                 object.__setattr__(operation_update, "_verif_sync", bool(is_sync))
                 res["events"].append(["upd", operation_update.name, operation_update.action.value, operation_update.operation_type.value, sim.clock])
-                return orig_cc(self, operation_update, is_sync)
+                r_ = orig_cc(self, operation_update, is_sync)
+                if is_sync:
+                    # a synchronous checkpoint returned normally: the caller now relies on the record being held
+                    res["events"].append(["ack", operation_update.name, operation_update.action.value, operation_update.operation_type.value, sim.clock])
+                return r_
             # the empty (refresh) checkpoint of the timer thread's resubmitter
             try:
                 return orig_cc(self, operation_update, is_sync)
@@ -228,6 +244,34 @@ def run_invocation(sc, backend, seed, fault=None, schedule=None):
                             res["running"].discard(name)
                     v = ctx.step(fn, name=name, config=StepConfig(retry_strategy=lambda e, n: RetryDecision.no_retry()))
                     out.append(token_of(v))
+                elif k == "rstep":
+                    # a step that fails its first `fails` attempts and is retried after `delay` seconds; optionally at-most-once
+                    def rfn(sctx, a=a, name=name):
+                        att = backend.user_entries[name] = backend.user_entries.get(name, 0) + 1
+                        res["events"].append(["enter", name, sim.clock, sorted(o.status for o in backend.ops.values() if o.name == name and o.status in TERMINAL), att])
+                        sim.point("body")
+                        if att <= a["fails"]:
+                            raise type("Flaky", (Exception,), {})(f"attempt {att}")
+                        return VALUE_POOL[a["out"]]
+                    from aws_durable_execution_sdk_python.config import StepSemantics
+                    v = ctx.step(rfn, name=name, config=StepConfig(
+                        retry_strategy=lambda e, n, a=a: RetryDecision.retry(Duration.from_seconds(a["delay"])) if n <= a["fails"] else RetryDecision.no_retry(),
+                        step_semantics=StepSemantics.AT_MOST_ONCE_PER_RETRY if a.get("amo") else StepSemantics.AT_LEAST_ONCE_PER_RETRY))
+                    out.append(token_of(v))
+                elif k == "child":
+                    v = ctx.run_in_child_context(lambda c, a=a, name=name: run_actions(c, a["body"], name) + "~" * a.get("big", 0), name=name)
+                    out.append("(" + str(v) + ")")
+                elif k == "wfc":
+                    from aws_durable_execution_sdk_python.waits import WaitForConditionConfig, WaitForConditionDecision
+
+                    def check(state, cctx, name=name):
+                        res["events"].append(["poll", name, sim.clock, state])
+                        sim.point("body")
+                        return state + 1
+                    v = ctx.wait_for_condition(check, WaitForConditionConfig(
+                        wait_strategy=lambda st_, n, a=a: WaitForConditionDecision.stop_polling() if st_ >= a["polls"]
+                        else WaitForConditionDecision.continue_waiting(Duration(seconds=1)), initial_state=0), name=name)
+                    out.append("w" + str(v))
                 elif k == "wait":
                     ctx.wait(Duration.from_seconds(a["secs"]), name=name)
                     out.append("None")
@@ -326,9 +370,14 @@ def run_execution(sc, seed, max_inv=12, fault=None):
     backend = FakeBackend()
     backend.timers_in_invocation = True
     invs = []
+    clock = None
     for k in range(max_inv):
         backend.fired_in_invocation = set()
-        res = run_invocation(sc, backend, rng.randrange(1 << 30), fault=fault if k == 0 else None)
+        backend.invocation_no = k
+        res = run_invocation(sc, backend, rng.randrange(1 << 30), fault=fault if k == 0 else None, clock0=clock)
+        # the next invocation starts a little later (possibly after recorded retry/wait instants, whether or not the
+        # backend has acted on them yet)
+        clock = res["clock"] + rng.choice([0.0, 0.1, 1.0, 2.5])
         inv = {"status": status_of(res), "batches": res.get("batches", {}), "events": res["events"], "max_bodies": res["max_bodies"],
                "hung": res["hung"], "limit": res["limit"], "decisions": res["decisions"], "out": res.get("out"),
                "running_at_return": res.get("running_at_return", []),
@@ -337,7 +386,8 @@ def run_execution(sc, seed, max_inv=12, fault=None):
                "log": [(t, [(u["name"], u["action"], u["type"]) for u in us], o) for t, us, o in backend.calls],
                "ids": [(u["name"], u["id"], u["parent"]) for t, us, o in backend.calls for u in us],
                "enabled_after": [(kind, backend.ops[i].name) for kind, i in backend.enabled_events()],
-               "rejections": list(backend.rejections), "fault_fired": res.get("fault_fired", False), "pevents": res.get("pevents", [])}
+               "rejections": list(backend.rejections), "fault_fired": res.get("fault_fired", False) or backend.page_fetch_failed,
+               "pevents": res.get("pevents", [])}
         backend.calls = []
         invs.append(inv)
         if inv["status"] != "PENDING":
@@ -355,6 +405,25 @@ def run_execution(sc, seed, max_inv=12, fault=None):
 
 
 # ------------------------------------------------------------------------------------ oracles
+def expected_out(acts):
+    out = []
+    for a in acts:
+        k = a["a"]
+        if k == "wait":
+            out.append("None")
+        elif k == "step":
+            out.append(a["out"]["ok"])
+        elif k == "rstep":
+            out.append(a["out"])
+        elif k in ("cb", "cbres"):
+            out.append("R:cb")
+        elif k == "child":
+            out.append("(" + expected_out(a["body"]) + "~" * a.get("big", 0) + ")")
+        elif k == "wfc":
+            out.append("w" + str(a["polls"]))
+    return "|".join(out)
+
+
 def expected_policy(cfg, n, s, f):
     from fractions import Fraction
     mn, cnt, pct = cfg.get("min"), cfg.get("count"), cfg.get("pct")
@@ -378,6 +447,18 @@ def oracles(ctx, prop, ex, component):
     first_batches = {}
     entered = {}
     branch_done = {}
+    allowed_retries = {}
+
+    def collect(acts, tag):
+        for j, a in enumerate(acts):
+            if a["a"] == "rstep":
+                allowed_retries[f"{tag}/{j}"] = a["fails"]
+            elif a["a"] == "child":
+                collect(a["body"], f"{tag}/{j}")
+    for n_, b_ in enumerate(sc["blocks"]):
+        for i_, br_ in enumerate(b_.get("branches", [])):
+            collect(br_, f"b{n_}.{i_}")
+        collect(b_.get("actions", []), f"top{n_}")
     # C08: one id per program position (the scenario names every operation by its position), over all invocations
     id_of, name_of = {}, {}
     for k, inv in enumerate(ex["invs"]):
@@ -402,7 +483,7 @@ def oracles(ctx, prop, ex, component):
                 if len(ev) > 3 and ev[3]:
                     V("C01.user_function_entered_for_recorded_operation", {"inv": k, "step": ev[1], "recorded": ev[3]})
                 entered[ev[1]] = entered.get(ev[1], 0) + 1
-                if entered[ev[1]] > 1:
+                if entered[ev[1]] > 1 + allowed_retries.get(ev[1], 0):
                     # no-retry steps, no crashes in these scenarios: a second entry is a re-execution
                     V("C01.step_user_function_ran_twice", {"inv": k, "step": ev[1], "runs": entered[ev[1]]})
                     V("C16.step_re_executed_while_rebuilding", {"inv": k, "step": ev[1], "runs": entered[ev[1]]})
@@ -410,6 +491,15 @@ def oracles(ctx, prop, ex, component):
             V("C06.success_or_pending_after_checkpoint_failure", {"inv": k, "status": inv["status"]})
         for rej in inv["rejections"]:
             V("C11.backend_rejected_update", {"inv": k, "rejection": rej})
+            if "terminal" in str(rej.get("reason", "")) and (rej.get("update") or {}).get("type") == "CONTEXT":
+                # a record for a context whose completion (summary) is already held
+                V("C16.record_sent_for_completed_context", {"inv": k, "rejection": rej})
+        applied_ok = {(nm, ac) for t, us, o in inv["log"] if o == "ok" for nm, ac, ty in us}
+        for ev in inv["events"]:
+            if ev[0] == "ack" and ev[1] and (ev[1], ev[2]) not in applied_ok and not inv["fault_fired"]:
+                # create_checkpoint(is_sync=True) returned although no successful API call carried the update
+                V("C03.sync_checkpoint_returned_but_update_never_applied", {"inv": k, "update": ev[1:4]})
+                V("C05.sync_checkpoint_returned_but_update_never_applied", {"inv": k, "update": ev[1:4]})
         for n, blk in enumerate(sc["blocks"]):
             if blk["kind"] not in ("map", "parallel"):
                 continue
@@ -434,7 +524,7 @@ def oracles(ctx, prop, ex, component):
                 for it in items:
                     acts = blk["branches"][it[0]]
                     if it[1] == "SUCCEEDED":
-                        want = "|".join(("None" if a["a"] == "wait" else a["out"]["ok"] if a["a"] == "step" else "R:cb") for a in acts if a["a"] in ("step", "wait", "cb", "cbres"))
+                        want = expected_out(acts)
                         if it[2] != want:
                             V("C09.item_result_not_branch_result", {"inv": k, "block": n, "index": it[0], "got": it[2], "want": want})
                             V("C01.item_result_not_recorded_result", {"inv": k, "block": n, "index": it[0], "got": it[2], "want": want})
@@ -521,9 +611,25 @@ def oracles(ctx, prop, ex, component):
 
 
 # ------------------------------------------------------------------------------------ generators
+def gen_rich_action(rng, depth=1):
+    r = rng.random()
+    if r < 0.35:
+        return {"a": "rstep", "fails": rng.choice([1, 1, 2]), "delay": rng.choice([1, 2]), "out": rng.choice(["i5", "s", "t"]), "amo": rng.random() < 0.4}
+    if r < 0.6 and depth > 0:
+        return {"a": "child", "body": [gen_rich_action(rng, depth - 1) if rng.random() < 0.5 else
+                                       {"a": "step", "out": {"ok": rng.choice(["i5", "s", "z"])}, "yield": 1} for _ in range(rng.choice([1, 2]))]}
+    if r < 0.8:
+        return {"a": "wfc", "polls": rng.choice([1, 2, 3])}
+    return {"a": "step", "out": {"ok": rng.choice(["i5", "s", "t"])}, "yield": rng.choice([1, 3])}
+
+
 def gen_branch(rng, allow_block=True):
     acts = []
     for _ in range(rng.choice([1, 1, 2, 3])):
+        r = rng.random()
+        if r < 0.22:
+            acts.append(gen_rich_action(rng))
+            continue
         r = rng.random()
         if r < 0.55:
             out = {"ok": rng.choice(["i5", "s", "t", "z", "None"])} if rng.random() < 0.7 else {"err": {"cls": "Boom", "msg": rng.choice(["bad", "bad", ""])}}
@@ -592,8 +698,31 @@ def gen_large_early(rng):
     return sc
 
 
+def gen_resubmit_rich(rng):
+    """A branch with completed work (a step, possibly an oversized child context) followed by a timed suspension, and a
+    sibling that keeps the invocation alive: the branch is re-submitted in-process and re-traverses its recorded
+    operations; checkpoint responses are paginated and a page fetch may fail (twice in a row)."""
+    s_ = rng.choice([1, 2])
+    first = rng.choice([{"a": "step", "out": {"ok": "i5"}, "yield": 1},
+                        {"a": "child", "body": [{"a": "step", "out": {"ok": "s"}, "yield": 1}], "big": rng.choice([0, 150])}])
+    a = [first, {"a": "wait", "secs": s_}, {"a": "step", "out": {"ok": "t"}, "yield": 1}]
+    b = [{"a": "step", "out": {"ok": "s"}, "yield": rng.choice([1, 3]), "sleep": s_ + rng.choice([1, 2])}]
+    branches = [a, b] + ([[{"a": "step", "out": {"ok": "z"}, "yield": 1}]] if rng.random() < 0.5 else [])
+    rng.shuffle(branches)
+    sc = {"blocks": [{"kind": rng.choice(["map", "parallel"]), "branches": branches, "max_concurrency": None}], "completion": {}}
+    if rng.random() < 0.6:
+        sc["ckpt_limit"] = rng.choice([60, 120])
+    if rng.random() < 0.7:
+        sc["resp_page_size"] = 1
+        if rng.random() < 0.7:
+            sc["page_fault"] = {"at": rng.randrange(0, 4), "times": rng.choice([1, 2, 2])}
+    return sc
+
+
 def gen_scenario(rng, zero_p=0.05):
     x = rng.random()
+    if x > 0.9:
+        return gen_resubmit_rich(rng)
     if x < 0.15:
         return gen_timer_race(rng)
     if x < 0.30:
@@ -636,7 +765,7 @@ def one(ctx, prop, sc, seed, component="executor", fault=None):
     oracles(ctx, prop, ex, component)
     for inv in ex["invs"]:
         compare_par(ctx, sc, inv, seed=seed)
-    ctx.case((json.dumps(sc, sort_keys=True), seed) if (nontrivial(ex) or prop in ("C07", "C06", "C10", "C01", "C02", "C08", "C16")) and len(ex["invs"]) >= 1 else None)
+    ctx.case((json.dumps(sc, sort_keys=True), seed) if (nontrivial(ex) or prop in ("C07", "C06", "C10", "C01", "C02", "C08", "C16", "C03", "C05", "C11")) and len(ex["invs"]) >= 1 else None)
     ctx.count("exec.invocations=%d" % min(len(ex["invs"]), 5))
     ctx.count("exec.status=" + ex["invs"][-1]["status"])
     if len(ctx.samples) < 4:
@@ -736,16 +865,21 @@ def derive_par_actions(pevents):
     end = None
     evs = commute_timer(pevents[pevents.index(start) + 1:])
     i = 0
+    n_sub = 0
     while i < len(evs):
         e = evs[i]
         t = e[1]
-        if e[0] in ("begin", "finish", "timer.pop", "reset", "exec.end", "cancel") and t > last_t:
+        if e[0] in ("begin", "finish", "timer.pop", "reset", "exec.end", "cancel", "submit") and t > last_t:
             acts.append(["tick", t - last_t])
             last_t = t
-        if e[0] == "begin":
+        if e[0] == "submit" and e[2] != "thread":
+            acts.append(["submit", n_sub])       # the main thread submits the initial tasks in index order
+            n_sub += 1
+        elif e[0] == "begin":
             acts.append(["begin", e[2]])
         elif e[0] == "finish":
-            acts.append(["finish", e[2]] + e[3:])
+            # resume instants are logged relative to the start of the invocation; the model's clock starts with the executor
+            acts.append(["finish", e[2]] + ([e[3], max(0, e[4] - start[1])] if e[3] == "suspUntil" else e[3:]))
         elif e[0] == "cancel":
             acts.append(["cancel", e[2]])
         elif e[0] == "timer.pop" and any(f[0] == "reset" and f[2] == e[2] for f in evs[i + 1:next(
